@@ -18,9 +18,10 @@ open GIV GIV.Lockedfile
 
 /-! ### regenerated facts -/
 
-/-- The source still has the statement shapes that the model's programs hard-code (closeFile unlocks
-before it closes, the error paths of openFile, the shapes of Read / Write / Mutex.Lock / Transform). -/
-theorem facts_program_shape : programShape = true := by decide
+/-- The source still has the statement shapes of the locking code that the model's programs hard-code
+(closeFile unlocks before it closes, the error paths of openFile, filelock's LOCK_SH / LOCK_EX / LOCK_UN,
+Mutex.Lock). -/
+theorem facts_program_shape : programShapeLock = true := by decide
 
 example : Gen.Lockedfile.unlockBeforeClose = true ∧ Gen.Lockedfile.truncAfterLock = true := by decide
 
